@@ -10,12 +10,14 @@ CONSTANTS
   MaxJoins = 2
   MaxReq = 5
   MaxStatus = 2
+  MaxRetry = 0
   MaxPending = 3
   PerPeer = 2
   Weak_NoCommitVerify = FALSE
   Weak_SaveBeforeValidate = FALSE
   Weak_NoRedo = FALSE
   Weak_SeenCommitUnchecked = FALSE
+  Weak_AcceptsFromPreviousPeer = FALSE
   Weak_RedoAlwaysCountsPending = TRUE
   Weak_NilSlotAddressUnchecked = FALSE
   Weak_StaleMaxPeerHeight = FALSE
@@ -24,5 +26,5 @@ CONSTANTS
 INIT Init
 NEXT Next
 VIEW View
-INVARIANTS OnlyCanonical CommitCovers FullyValidated AppliedIsStored LiarsDropped PendingCounterExact CleanHandover SeenCommitsClean TipWhenHonest PoolShape
+INVARIANTS OnlyCanonical CommitCovers FullyValidated AppliedIsStored LiarsDropped PendingCounterExact AcceptOnlyFromAsked CleanHandover SeenCommitsClean TipWhenHonest PoolShape
 CHECK_DEADLOCK FALSE
